@@ -6,9 +6,12 @@ Driver of C18. Two case kinds (payload, space separated):
 
 * `L <src-hex>` — result: `pos,line,col` of every token the lexer emits (comments, EOF and
   error token included), joined by single spaces.
-* `E <P|R> <src-hex> <off>` — a program with a planted parse (`P`) or runtime (`R`) error whose
-  offending token starts at byte offset `off` (`eof`: the EOF token). Result: `line,col` the
-  error must carry = the fields of that token in the lexer model.
+* `E <P|R|X> <src-hex> <off> [<calloff>]` — a program with a planted parse (`P`) or runtime (`R`)
+  error, or a runtime error the program catches itself (`X`), whose offending token starts at
+  byte offset `off` (`eof`: the EOF token). Result: `line,col` of that token in the lexer model,
+  once per observable (P: Line/Pos fields, numbers in the message text; R: fields, text, node
+  line/linepos in MarshalJSON; X: `e.line`, `e.pos` of the except object) and, with `calloff`, the
+  line of the call token the error passed through (outermost stack trace entry).
 
 * `S <ref-hex> <var-hex> <tree>` — statement separation: `var` is the comment-free program `ref`
   with comments put into its gaps; result: the canonical tree (or parse error kind) the real
@@ -161,17 +164,37 @@ def lexCase (src : List Nat) : String :=
   let js := (toks.zip exps).map fun (t, e) => judge inp toks t e true
   if toks.isEmpty then "-" else render js (toks.any fun t => t.id != tEOF && t.line > 1)
 
-def errCase (src : List Nat) (off : String) : String :=
+/-- `E` cases: `n` = how many observables carry the offending token's (line, column): fields,
+    message text, JSON / except object; `calloff`: offset of the call the error passes through —
+    the outermost stack trace entry must name that token's line. -/
+def errCase (kind : String) (src : List Nat) (off : String) (calloff : Option String) : String :=
   let inp := src.toArray
   let toks := (lex src).toList
+  let real (t : Tok) : Bool := t.id != tEOF && t.id != tPRECOMMENT && t.id != tPOSTCOMMENT
   let tok? : Option Tok :=
     if off = "eof" then (match toks.getLast? with | some t => if t.id = tEOF then some t else none | none => none)
     else match off.toNat? with
-      | some o => toks.find? fun t => t.pos = o && t.id != tEOF && t.id != tPRECOMMENT && t.id != tPOSTCOMMENT
+      | some o => toks.find? fun t => t.pos = o && real t
       | none => none
+  let n := if kind = "P" then 2 else if kind = "R" then 3 else 1
   match tok? with
   | none => "no-token-at-offset"
-  | some t => render [judge inp toks t t.pos false] (t.line > 1)
+  | some t =>
+    let j := judge inp toks t t.pos false
+    let call : Option (List TokJ) := match calloff with
+      | none => some []
+      | some c => match c.toNat? with
+        | none => none
+        | some o => match toks.find? fun t => t.pos = o && real t with
+          | none => none
+          | some ct =>
+            -- the line is always true (`token_positions_true_partial`); no alternative
+            let l := s!"{ct.line}"
+            if ct.line = lineOf inp o then some [{ model := l, spec := l, alts := [l], deviates := false, cls := "", isEof := false }]
+            else some [{ model := l, spec := s!"{lineOf inp o}", alts := [l], deviates := true, cls := "unexplained-position", isEof := false }]
+    match call with
+    | none => "no-call-token-at-offset"
+    | some cj => render (List.replicate n j ++ cj) (t.line > 1)
 
 /-- tokens the parser sees (comments are attached to nodes as meta data, never parsed) -/
 def parserToks (src : List Nat) : List Tok :=
@@ -203,8 +226,11 @@ def runCase (payload : String) : String :=
   | ["L", h] => match hexDecode h with
     | some src => lexCase src
     | none => "bad-payload"
-  | ["E", _k, h, off] => match hexDecode h with
-    | some src => errCase src off
+  | ["E", k, h, off] => match hexDecode h with
+    | some src => errCase k src off none
+    | none => "bad-payload"
+  | ["E", k, h, off, calloff] => match hexDecode h with
+    | some src => errCase k src off (some calloff)
     | none => "bad-payload"
   | ["S", r, v, tree] => match hexDecode r, hexDecode v with
     | some r, some v => sepCase r v tree
